@@ -119,6 +119,22 @@ pub fn check_header(c: &HeaderCase, dir: &std::path::Path) -> Verdict {
         }
         return v;
     }
+    if c.via.starts_with("python-after-edit-") {
+        let edit: u64 = c.via["python-after-edit-".len()..].parse().unwrap_or(0);
+        match crate::pyworker::ask(&serde_json::json!({"op": "header_mut", "k": c.k, "edit": edit})) {
+            Ok(r) => {
+                for (i, which) in ["the same computer", "a new computer"].iter().enumerate() {
+                    let h: Vec<String> = r["ok"][i].as_array().map(|a| a.iter().map(|x| x.as_str().unwrap_or("").to_string()).collect()).unwrap_or_default();
+                    if h != texts {
+                        v.fail("header-python-after-caller-edit", format!("k={}: after the caller edited the list it got (edit {}), get_header() of {} returns {} names, first {:?}; expected the {} canonical k-mers", c.k, edit, which, h.len(), h.first(), texts.len()));
+                        return v;
+                    }
+                }
+            }
+            Err(e) => crate::pyworker::record_error(&mut v, e),
+        }
+        return v;
+    }
     if c.via == "python" {
         match crate::pyworker::ask(&serde_json::json!({"op": "header", "k": c.k})) {
             Ok(r) => {
@@ -209,6 +225,11 @@ pub fn header_cases() -> Vec<HeaderCase> {
     for k in 1..=8 {
         out.push(HeaderCase { k, via: "python".into() });
     }
+    for k in 1..=7 {
+        for e in 0..6 {
+            out.push(HeaderCase { k, via: format!("python-after-edit-{}", e) });
+        }
+    }
     for k in 3..=7 {
         for via in ["cli-csv", "cli-tsv", "cli-spc"] {
             out.push(HeaderCase { k, via: via.into() });
@@ -224,8 +245,11 @@ impl Leg for Cold {
     const NAME: &'static str = "cold-start-threads";
     fn strategy(_tier: Tier) -> BoxedStrategy<Self::Case> {
         use super::coldstart::Op;
-        let op = prop_oneof![4 => 1usize..=6, 1 => 7usize..=8].prop_map(|k| Op::PosMaps { k }).boxed();
-        super::coldstart::case_strategy(op)
+        // mostly a few tables per thread; a third of the cases let every thread build dozens of small tables
+        // (threads that ask for different k at overlapping times all through the run)
+        let few = super::coldstart::case_strategy(prop_oneof![4 => 1usize..=6, 1 => 7usize..=8].prop_map(|k| Op::PosMaps { k }).boxed());
+        let many = super::coldstart::case_strategy_n((1usize..=5).prop_map(|k| Op::PosMaps { k }).boxed(), 40);
+        prop_oneof![2 => few, 1 => many].boxed()
     }
     fn check(c: &Self::Case) -> Verdict {
         super::coldstart::check(c, "cold-start-wrong-table")
